@@ -63,6 +63,47 @@ func main() {
 		}
 		fn(ctx, rep)
 	}()
+	// thorough tier: a second complete pass over the 32-bit build (GOARCH=386: int is 32 bits, build-constrained
+	// files differ); every obligation violated or undecided there and not in the first pass is added.
+	if *tier == "thorough" && os.Getenv("VERIF_GOARCH") == "" && len(rep.Infra) == 0 && ctx != nil {
+		os.Setenv("VERIF_GOARCH", "386")
+		rep2 := chk.NewReport(*prop)
+		func() {
+			defer func() {
+				if r := recover(); r != nil {
+					rep.Infra = append(rep.Infra, fmt.Sprintf("analyser panic in the GOARCH=386 pass: %v\n%s", r, debug.Stack()))
+				}
+			}()
+			ctx2, err := chk.Load(*repo, *tier)
+			if err != nil {
+				rep.Undecided("LOAD", "packages [GOARCH=386]", "", err.Error())
+				return
+			}
+			fn(ctx2, rep2)
+		}()
+		os.Unsetenv("VERIF_GOARCH")
+		first := map[string]chk.Status{}
+		for _, o := range rep.Obls {
+			first[o.Key] = o.Status
+		}
+		added, same := 0, 0
+		for _, o := range rep2.Obls {
+			if o.Status == chk.Discharged {
+				continue
+			}
+			if st, ok := first[o.Key]; ok && st == o.Status {
+				same++
+				continue
+			}
+			added++
+			o.Key += " [GOARCH=386]"
+			o.Detail += " (only in the 32-bit build)"
+			rep.Obls = append(rep.Obls, o)
+		}
+		rep.Extra["second_pass_GOARCH_386_obligations"] = len(rep2.Obls)
+		rep.Extra["second_pass_GOARCH_386_new_violations"] = added
+		rep.Extra["second_pass_GOARCH_386_same_violations"] = same
+	}
 	if *list || *only != "" {
 		for _, o := range rep.Obls {
 			if *only == "" || strings.Contains(o.Key, *only) {
